@@ -452,6 +452,23 @@ def _expand(tmpl, m):
 
 _CACHE = {}
 
+try:
+    from crosshair.tracers import NoTracing as _NoTracing
+except Exception:  # pragma: no cover
+    _NoTracing = None
+
+
+def _all_concrete(*vals):
+    """True when every value is a real str (not a CrossHair symbolic): then the real `re` is used directly -
+    the shim exists only to give symbolic subjects an executable semantics"""
+    if _NoTracing is None:
+        return False
+    with _NoTracing():
+        for v in vals:
+            if type(v) is not str:
+                return False
+        return True
+
 
 def compile(p, flags=0):
     if isinstance(p, Pattern):
@@ -467,6 +484,10 @@ def compile(p, flags=0):
 
 
 def sub(p, repl, s, count=0, flags=0):
+    if _all_concrete(p, repl, s):
+        SEEN_PATTERNS.setdefault(p, flags)
+        with _NoTracing():
+            return _re.sub(p, repl, s, count, flags)
     return compile(p, flags).sub(repl, s, count)
 
 
